@@ -35,7 +35,7 @@ NS = '<model: not set>'          # model-side sentinel (survives deepcopy, unlik
 TYPES = {
     'int': (int, [-1, 7], 5),
     'uint': ('uint', [0, 5], 3),
-    'float': (float, [0.1, -2.0, 3], 1.5),
+    'float': (float, [0.0, -0.0, 3, 0.1], 1.5),
     'bool': (bool, [True, False], False),
     'obj': ('obj', [None, 'x', [1]], 'dflt'),
 }
@@ -56,6 +56,9 @@ def units(tier):
     for t in TYPES:
         for dflt in (False, True):
             out.append({'kind': 'typed', 'type': t, 'default': dflt, 'indices': idx, 'nvalues': 3})
+    for t in TYPES:
+        # a far index (array growth by many slots at once) next to index 0
+        out.append({'kind': 'typed', 'type': t, 'default': t == 'uint', 'indices': [0, 9] if tier == 'quick' else [0, 9, 17], 'nvalues': 2})
     out.append({'kind': 'mapper', 'indices': [0, 3], 'depth': 8 if tier == 'quick' else 11})
     out.append({'kind': 'mapper', 'indices': [1, 0], 'depth': 7 if tier == 'quick' else 10})
     out.append({'kind': 'manager', 'depth': 6 if tier == 'quick' else 8})
@@ -93,7 +96,7 @@ def typed_ops(unit, model):
     for i in unit['indices']:
         ops.append(('add_key', i))
         if i in model:
-            for v in values[:unit['nvalues']]:
+            for v in values[:max(unit['nvalues'], 4 if unit['type'] == 'float' and unit['nvalues'] >= 3 else 0)]:
                 ops.append(('set', i, v))
             ops.append(('del_key', i))
     return ops
@@ -113,7 +116,7 @@ def read_all(unit, store, model, problems, what):
             if got is not NOTSET:
                 problems.append(('fresh-slot-not-reading-notset', what, i, repr(got)))
         else:
-            if got is NOTSET or got != want:
+            if got is NOTSET or got != want or (isinstance(want, float) and repr(float(got)) != repr(want)):
                 problems.append(('read-differs-from-last-write', what, i, repr(got), repr(want)))
             elif dt in (int, float, bool) and type(got) is not dt:
                 problems.append(('read-has-wrong-type', what, i, repr(got)))
@@ -412,8 +415,8 @@ def run_case(case, acc):
 
 def guards(acc, tier):
     msgs = []
-    if acc.counters.get('fixpoints_reached', 0) + acc.counters.get('bfs_capped_at_400000_states', 0) < 10:
-        msgs.append('fewer than 10 typed-store fixpoints reached')
+    if acc.counters.get('fixpoints_reached', 0) + acc.counters.get('bfs_capped_at_400000_states', 0) < 15:
+        msgs.append('fewer than 15 typed-store fixpoints reached')
     if len(acc.states) < 500:
         msgs.append('fewer than 500 distinct states')
     return msgs
